@@ -1467,3 +1467,23 @@ V(id='c14-shared-prefix-sign-ignored', prop='C14', file='mpmath/libmp/libmpi.py'
 V(id='c14-new-transcendental-endpoint', prop='C14', file='mpmath/libmp/libmpi.py',
   old="def mpi_atan2(y, x, prec):", new="def mpi_expm1_like(x, prec):\n    a, b = x\n    return mpf_exp(a, prec, round_floor), mpf_exp(b, prec, round_ceiling)\n\ndef mpi_atan2(y, x, prec):",
   expect='fire:C-R14:mpi_expm1_like')
+
+# ------------------------------------------------ C10 B-R7 -------
+V(id='c10-hyperu-return-in-raised-region', prop='C10', file='mpmath/functions/bessel.py',
+  old="            v = v / z**a\n        finally:\n            ctx.prec = orig\n        return +v\n    except ctx.NoConvergence:",
+  new="            return v / z**a\n        finally:\n            ctx.prec = orig\n    except ctx.NoConvergence:",
+  expect='fire:B-R7:hyperu')
+V(id='c10-jtheta-unrounded', prop='C10', file='mpmath/functions/theta.py',
+  old="    finally:\n        ctx.prec = prec0\n    return +res\n\n@defun\ndef _djtheta(", new="    finally:\n        ctx.prec = prec0\n    return res\n\n@defun\ndef _djtheta(",
+  expect='fire:B-R7:jtheta')
+V(id='c10-sum-accurately-returns-in-region', prop='C10', file='mpmath/ctx_base.py',
+  old="                extraprec += min(ctx.prec, cancellation)\n        finally:\n            ctx.prec = prec\n        return +s\n\n    def mul_accurately",
+  new="                extraprec += min(ctx.prec, cancellation)\n            return s\n        finally:\n            ctx.prec = prec\n\n    def mul_accurately",
+  expect='fire:B-R7:sum_accurately')
+V(id='c10-besseljn-rounds-to-enlarged-prec', prop='C10', file='mpmath/libmp/libhyper.py',
+  old="def mpf_besseljn(n, x, prec, rounding=round_fast):\n    negate = n < 0 and n & 1",
+  new="def mpf_besseljn(n, x, prec, rounding=round_fast):\n    prec += 50\n    negate = n < 0 and n & 1",
+  expect='fire:B-R7:besselj')
+V(id='c10-benign-round-then-return', prop='C10', file='mpmath/functions/theta.py',
+  old="    finally:\n        ctx.prec = prec0\n    return +res\n\n@defun\ndef _djtheta(", new="    finally:\n        ctx.prec = prec0\n    res = +res\n    return res\n\n@defun\ndef _djtheta(",
+  expect='silent')
